@@ -770,6 +770,30 @@ def shallow_stage(ctx, cases, observe_fn, shard):
                        "model_computed": shown, "n_disagreements": len(bad)}, no_input=True)
 
 
+def gen_tie_stage(ctx):
+    """translator tie (wave 3): coq/Gen/CopyGen.v was just regenerated from the current source by proof_stage; the
+    theorems of Props/C12Gen.v prove it equal (up to the ghost record) to the hand model.  An edit of a translated
+    Python function changes CopyGen.v and breaks this build."""
+    # regenerate under the same lock as the build: a concurrent check on another source tree cannot swap coq/Gen
+    ok, log = core.coq_make(["Props/C12Gen.vo"], regenerate=True)
+    ctx.obligation("translator tie: make Props/C12Gen.vo against the regenerated Gen/CopyGen.v", ok)
+    if not ok:
+        ctx.notes.append("translator tie: coq build failed at %s" % core.failing_file(log))
+        ctx.build_log = log[-6000:]
+        return False
+    res = core.props_check(ctx.pid, "Props/C12Gen.v")
+    if not res["ok"]:
+        ctx.obligation("Props/C12Gen.v compiles", False)
+        ctx.build_log = res["log"][-6000:]
+        return False
+    good = True
+    for th in res["theorems"]:
+        closed = th in res["assumptions"] and not res["assumptions"][th]
+        ctx.obligation("theorem %s" % th, closed)
+        good = good and closed
+    return good
+
+
 def iso_hypotheses(ctx, kept, shard):
     """second wave: on how many cases do the extra hypotheses (wf_heap3s) of the image theorems
     (deepcopy_image_onto_and_total, scoped_shares_every_reachable_seed) hold?  They are expected to fail
@@ -820,8 +844,10 @@ def run(tier, seed, replay=None):
         print("oracle:", oracle(case, obs))
         print(json.dumps(_slim(obs), default=str)[:3000])
         return 0
-    # C12 uses no translated (coq/Gen) file: translator failures on other properties' sources are not C12 obligations
-    ok = core.proof_stage(ctx, ["Props/C12.vo"], gen_needed=("C12",))
+    # the only translated (coq/Gen) file C12 uses is CopyGen.v (py/dv/gen_copy.py): translator failures on other
+    # properties' sources are not C12 obligations
+    ok = core.proof_stage(ctx, ["Props/C12.vo"], gen_needed=("CopyGen",))
+    ok = gen_tie_stage(ctx) and ok
     if not ok:
         core.broken_proof(ctx, search)
     n = 300 if tier == "quick" else 10000
